@@ -23,7 +23,7 @@ class _Lazy(dict):
 
     def get(self, prop, default=None):
         s = _standins()
-        table = {'C06': [s.c06_roundtrip], 'C17': [s.c17_parallel_map], 'C14': [s.c14_caches], 'C16': [s.c16_cached]}
+        table = {'C06': [s.c06_roundtrip], 'C17': [s.c17_parallel_map], 'C14': [s.c14_caches], 'C16': [s.c16_cached], 'C11': [s.c11_placeholders]}
         return table.get(prop, default if default is not None else [])
 
 
@@ -33,7 +33,7 @@ EXTRA_CHECKS = _Lazy()
 class _LazyReplay(dict):
     def __getitem__(self, name):
         s = _standins()
-        return {'c06_roundtrip': s.replay_c06, 'c17_parallel_map': s.replay_c17, 'c14_caches': s.replay_c14, 'c16_cached': s.replay_c16}[name]
+        return {'c06_roundtrip': s.replay_c06, 'c17_parallel_map': s.replay_c17, 'c14_caches': s.replay_c14, 'c16_cached': s.replay_c16, 'c11_placeholders': s.replay_c11}[name]
 
 
 EXTRA_REPLAY = _LazyReplay()
